@@ -214,6 +214,26 @@ def edge_forms(fn):
             continue
         term = origin(fn, t["discr"])
         f = compare_form(term)
+        if f is None and term[0] == "phi":
+            # a boolean variable assigned in several arms: `let ok = match x { Some(v) => a < b, None => false }; if ok {..}`
+            # - on the true edge the one non-constant alternative holds (when all others are `false`), and dually for `true`
+            alts = list(term[1])
+            consts = [a for a in alts if a[0] == "const" and isinstance(a[1], (bool, int)) and a[1] in (0, 1, True, False)]
+            others = [a for a in alts if a not in consts]
+            if len(others) == 1 and consts:
+                g0 = compare_form(others[0])
+                if g0 is not None:
+                    allfalse = all(not bool(a[1]) for a in consts)
+                    alltrue = all(bool(a[1]) for a in consts)
+                    for s in fn.succ(b):
+                        vals = [v for v, tb in t["targets"] if tb == s]
+                        is_true = vals == [1] or (not vals and t["otherwise"] == s and [v for v, _ in t["targets"]] == [0])
+                        is_false = vals == [0]
+                        if is_true and allfalse:
+                            out.append((b, s, g0, t["loc"]["l"]))
+                        if is_false and alltrue:
+                            out.append((b, s, g0.negate(), t["loc"]["l"]))
+            continue
         if f is None:
             # `match a.checked_sub(b) { None => .., Some(d) => .. }` : None <=> a < b (unsigned)
             if term[0] == "discr" and term[1][0] == "call" and term[1][1].split("::")[-1] == "checked_sub" and len(term[1][2]) == 2 and len(term) > 3 and term[3]:
